@@ -39,6 +39,9 @@ func scanWriteSites(repo string) ([]writeSite, error) {
 	}
 	var out []writeSite
 	fs := token.NewFileSet()
+	// named constants / variables of the package whose value is an expression over os.O_* flags
+	consts := map[string]ast.Expr{}
+	var files []*ast.File
 	for _, e := range ents {
 		n := e.Name()
 		if !strings.HasSuffix(n, ".go") || strings.HasSuffix(n, "_test.go") || strings.HasPrefix(n, "verif_") || n == "testing.go" {
@@ -48,6 +51,17 @@ func scanWriteSites(repo string) ([]writeSite, error) {
 		if err != nil {
 			return nil, err
 		}
+		files = append(files, f)
+		ast.Inspect(f, func(nd ast.Node) bool {
+			if vs, ok := nd.(*ast.ValueSpec); ok && len(vs.Names) == len(vs.Values) {
+				for i, nm := range vs.Names {
+					consts[nm.Name] = vs.Values[i]
+				}
+			}
+			return true
+		})
+	}
+	for _, f := range files {
 		for _, d := range f.Decls {
 			fd, ok := d.(*ast.FuncDecl)
 			if !ok || fd.Body == nil {
@@ -75,14 +89,12 @@ func scanWriteSites(repo string) ([]writeSite, error) {
 				case "os.OpenFile":
 					trunc := true
 					if len(ce.Args) >= 2 {
-						var sb strings.Builder
-						ast.Inspect(ce.Args[1], func(x ast.Node) bool {
-							if s, ok := x.(*ast.SelectorExpr); ok {
-								sb.WriteString(s.Sel.Name + " ")
-							}
+						fl, resolved := flagNames(ce.Args[1], consts, 0)
+						if !resolved {
+							// flags that cannot be read from the source (a variable, a call): nothing is claimed
+							// about this site -- neither append-only nor truncating
 							return true
-						})
-						fl := sb.String()
+						}
 						trunc = !strings.Contains(fl, "O_APPEND")
 					}
 					out = append(out, writeSite{fd.Name.Name, name, trunc})
@@ -243,4 +255,38 @@ func multiWriteFuncs(repo string) ([]string, error) {
 	}
 	sort.Strings(bad)
 	return bad, nil
+}
+
+// flagNames renders the os.O_* names an open-flag expression is made of, following identifiers that name
+// constants (or variables initialised once) of the package.  resolved is false when some part of the
+// expression is neither an os.O_* selector, an integer literal, nor such an identifier.
+func flagNames(e ast.Expr, consts map[string]ast.Expr, depth int) (names string, resolved bool) {
+	if depth > 6 {
+		return "", false
+	}
+	switch x := e.(type) {
+	case *ast.SelectorExpr:
+		if pk, ok := x.X.(*ast.Ident); ok && pk.Name == "os" {
+			return x.Sel.Name + " ", true
+		}
+		return "", false
+	case *ast.BinaryExpr:
+		a, ok1 := flagNames(x.X, consts, depth+1)
+		b, ok2 := flagNames(x.Y, consts, depth+1)
+		return a + b, ok1 && ok2
+	case *ast.ParenExpr:
+		return flagNames(x.X, consts, depth+1)
+	case *ast.BasicLit:
+		return "", true
+	case *ast.Ident:
+		if v, ok := consts[x.Name]; ok {
+			return flagNames(v, consts, depth+1)
+		}
+		return "", false
+	case *ast.CallExpr: // int(os.O_APPEND | ...)
+		if len(x.Args) == 1 {
+			return flagNames(x.Args[0], consts, depth+1)
+		}
+	}
+	return "", false
 }
